@@ -100,11 +100,13 @@ structure Block where
 inductive Err
   | notFound   -- `ds.ErrNotFound` from the datastore
   | corrupt    -- a stored value does not decode
+  | io         -- a transient read error of the datastore (any `Get` error other than not-found)
   deriving Repr, DecidableEq, Inhabited
 
 def Err.toString : Err → String
   | .notFound => "err:notfound"
   | .corrupt => "err:corrupt"
+  | .io => "err:io"
 
 def getOr (kv : KV) (k : String) : Except Err Bytes :=
   match kv.get k with
@@ -324,6 +326,145 @@ def getState (kv : KV) : Except Err State :=
     | none => .error .corrupt
 
 def setMetadata (k : String) (v : Bytes) : List WriteSet := [setMetadataWS k v]
+
+/-! ## transient read faults of the datastore
+
+`Faults`: which of the `Get`s ONE method call issues (numbered from 0 in program order) return a transient
+error (an error other than `ds.ErrNotFound`) and read nothing.  The `…F` versions below are what the driver
+executes; with `noFaults` they are the definitions above (`Proofs/C14Fault.lean`: `…F_noFaults`).  What the
+CURRENT code does with a faulted read, method by method (`store.go`):
+
+* `Height`, `GetHeader`, `GetBlockData`, `GetBlockByHash`, `GetSignature`, `GetSignatureByHash`, `GetState`,
+  `GetMetadata`: the error is returned (`err:io`), later reads are not made;
+* `SetHeight`: the error of `Height` is returned, nothing is written;
+* `UpdateState`, `SetMetadata`: no reads;
+* `SaveBlockData` (since /repo 3ba0234): the read of the header stored at the height (read 0) and — made only when
+  that header parses and has ANOTHER hash — the read of its index entry (read 1) return the error; nothing is
+  written.  Before 3ba0234 both look-ups swallowed the error (`if …; err == nil {`): the delete of the replaced
+  header's index entry was skipped, the four puts were committed and the call answered `nil`
+  (`saveBlobsWSFOld`, kept for the witness of the repaired defect
+  `C14/read/by-hash-returns-other-block-after-height-overwrite/after-read-fault`). -/
+
+abbrev Faults := Nat → Bool
+
+def noFaults : Faults := fun _ => false
+
+/-- `fault get=n skip=k`: reads `k`, …, `k+n-1` of the call fail -/
+def Faults.window (skip n : Nat) : Faults := fun i => decide (skip ≤ i) && decide (i < skip + n)
+
+/-- `Height` (one read: number 0) -/
+def heightF (f : Faults) (kv : KV) : Except Err Nat :=
+  if f 0 then .error .io else height kv
+
+/-- `SetHeight`: the error of the height look-up is returned and nothing is written -/
+def setHeightF (f : Faults) (kv : KV) (h : Nat) : Except Err (List WriteSet) :=
+  match heightF f kv with
+  | .error e => .error e
+  | .ok cur => if h ≤ cur then .ok [] else .ok [setHeightWS h]
+
+def setHeightWF (f : Faults) (kv : KV) (h : Nat) : List WriteSet :=
+  match setHeightF f kv h with
+  | .ok w => w
+  | .error _ => []
+
+/-- `getHeightByHash` when it is read number `i` of the call -/
+def getHeightByHashF (f : Faults) (i : Nat) (kv : KV) (hash : Bytes) : Except Err Nat :=
+  if f i then .error .io else getHeightByHash kv hash
+
+def indexPointsAtF (f : Faults) (i : Nat) (kv : KV) (x : Bytes) (h : Nat) : Bool :=
+  match getHeightByHashF f i kv x with
+  | .ok h' => h' == h
+  | .error _ => false
+
+/-- `SaveBlockData` BEFORE /repo 3ba0234: the look-up of the index entry to delete swallowed read errors: read 0 =
+the header stored at `h` (ANY error, also a faulted read: no clean-up), read 1 = the index entry of its hash, made
+only when that hash is another one (ANY error: no clean-up) -/
+def staleHashFOld (hashOf : Bytes → Option Bytes) (f : Faults) (kv : KV) (h : Nat) (hash : Bytes) : Option Bytes :=
+  if f 0 then none else
+  match kv.get (headerKey h) with
+  | none => none
+  | some ob =>
+    match hashOf ob with
+    | none => none
+    | some oh => if oh ≠ hash ∧ indexPointsAtF f 1 kv oh h = true then some oh else none
+
+def staleIndexWSFOld (hashOf : Bytes → Option Bytes) (f : Faults) (kv : KV) (h : Nat) (hash : Bytes) : WriteSet :=
+  match staleHashFOld hashOf f kv h hash with
+  | some oh => [.del (indexKey oh)]
+  | none => []
+
+/-- the write-set of `SaveBlockData` under read faults BEFORE /repo 3ba0234 (never an error, always the four puts) -/
+def saveBlobsWSFOld (hashOf : Bytes → Option Bytes) (f : Faults) (kv : KV) (h : Nat) (hash : Bytes) (b : Block) :
+    WriteSet :=
+  staleIndexWSFOld hashOf f kv h hash ++ savePutsWS h hash b
+
+/-- does `SaveBlockData` read the index entry of the header stored at `h` (its second read)?  Only when that header
+is there, parses, and has another hash than the one being saved -/
+def saveReadsIndex (hashOf : Bytes → Option Bytes) (kv : KV) (h : Nat) (hash : Bytes) : Bool :=
+  match kv.get (headerKey h) with
+  | none => false
+  | some ob =>
+    match hashOf ob with
+    | none => false
+    | some oh => oh != hash
+
+/-- a read `SaveBlockData` makes is faulted: read 0 (stored header), or read 1 (index entry) when it is made -/
+def saveFaulted (hashOf : Bytes → Option Bytes) (f : Faults) (kv : KV) (h : Nat) (hash : Bytes) : Bool :=
+  f 0 || (saveReadsIndex hashOf kv h hash && f 1)
+
+/-- `SaveBlockData` on the stored bytes under read faults (since /repo 3ba0234): a faulted read is returned as the
+error and NOTHING is written; otherwise the one batch of `saveBlobsWS` -/
+def saveBlobsF (hashOf : Bytes → Option Bytes) (f : Faults) (kv : KV) (h : Nat) (hash : Bytes) (b : Block) :
+    Except Err WriteSet :=
+  if saveFaulted hashOf f kv h hash then .error .io else .ok (saveBlobsWS hashOf kv h hash b)
+
+/-- `SaveBlockData(header, data, signature)` under read faults -/
+def saveBlockDataF (keyOk : Bytes → Bool) (f : Faults) (kv : KV) (sh : Wire.SignedHeader) (d : Wire.Data)
+    (sig : Bytes) : Except Err (List WriteSet) :=
+  match saveBlobsF (storedHeaderHash keyOk) f kv sh.header.height sh.header.hash ⟨sh.encode, d.encode, sig⟩ with
+  | .ok ws => .ok [ws]
+  | .error e => .error e
+
+/-- `GetSignature` as read number `i` -/
+def getSignatureF (f : Faults) (i : Nat) (kv : KV) (h : Nat) : Except Err Bytes :=
+  if f i then .error .io else getSignature kv h
+
+/-- `GetHeader` as read number `i` -/
+def getHeaderF (keyOk : Bytes → Bool) (f : Faults) (i : Nat) (kv : KV) (h : Nat) : Except Err Wire.SignedHeader :=
+  if f i then .error .io else getHeader keyOk kv h
+
+/-- `GetBlockData`: header = read `i`; data = read `i+1`, made only when the header was read and parsed -/
+def getBlockDataF (keyOk : Bytes → Bool) (f : Faults) (i : Nat) (kv : KV) (h : Nat) :
+    Except Err (Wire.SignedHeader × Wire.Data) :=
+  match getHeaderF keyOk f i kv h with
+  | .error e => .error e
+  | .ok sh =>
+    if f (i + 1) then .error .io else
+    match getDataBlob kv h with
+    | .error e => .error e
+    | .ok db =>
+      match Wire.Data.decode db with
+      | some d => .ok (sh, d)
+      | none => .error .corrupt
+
+/-- `GetBlockByHash`: index = read 0, header = read 1, data = read 2 -/
+def getBlockByHashF (keyOk : Bytes → Bool) (f : Faults) (kv : KV) (hash : Bytes) :
+    Except Err (Wire.SignedHeader × Wire.Data) :=
+  match getHeightByHashF f 0 kv hash with
+  | .error e => .error e
+  | .ok h => getBlockDataF keyOk f 1 kv h
+
+/-- `GetSignatureByHash`: index = read 0, signature = read 1 -/
+def getSignatureByHashF (f : Faults) (kv : KV) (hash : Bytes) : Except Err Bytes :=
+  match getHeightByHashF f 0 kv hash with
+  | .error e => .error e
+  | .ok h => getSignatureF f 1 kv h
+
+def getStateF (f : Faults) (kv : KV) : Except Err State :=
+  if f 0 then .error .io else getState kv
+
+def getMetadataF (f : Faults) (kv : KV) (k : String) : Except Err Bytes :=
+  if f 0 then .error .io else getMetadata kv k
 
 /-- `Close` + `New` on the same datastore: the store object holds no state of its own -/
 def reopen (kv : KV) : KV := kv
